@@ -2,15 +2,18 @@
 //
 //   c13_driver <case file>        one output line per input line
 //
-// case line:   <script> | <slot table> | <structure> | <ops>
-//   script      script.hpp commands joined by ';' that build the model in slot 0 (script.hpp is wrapped, not edited)
-//   slot table  ','-joined descriptors of every id-carrying position, position = index in the table ("id-slot"):
+// case line:   <script> | <slot tables> | <structures> | <ops>
+//   script      script.hpp commands joined by ';' that build the models (script.hpp is wrapped, not edited)
+//   slot tables one table per model, '/'-separated; a table is `clone:<j>` (the model is models[j]->clone(), made before
+//               any id is set; its table is derived from table j by position) or the
+//               ','-joined descriptors of every id-carrying position, position = index in the table ("id-slot"):
 //                 m:<M> e:<M> u:<U> ui:<U>:<index> i:<I> c:<C> cr:<C> v:<V> r:<R> tv:<R> rv:<R>
 //                 mp:<V1>:<V2> cn:<V1>:<V2> ma:<C>:<k>          (<X> = script slot numbers; k = 0: id on <math>, 1: on <apply>)
 //   structure   for the model driver only
 //   ops         ';'-joined annotator / edit commands on one libcellml::Annotator object:
-//                 S                       setModel(model)
-//                 E <idslot> s<hex>       the public setter of that position (setId, setEncapsulationId, setUnitId,
+//                 S [k]                   setModel(model k)            (several models are handed to ONE annotator in turn)
+//                 X                       the last reference to the model the annotator holds is dropped
+//                 E <idslot> s<hex> [k]   on model k: the public setter of that position (setId, setEncapsulationId, setUnitId,
 //                                         setTestValueId, setResetValueId, setEquivalenceMappingId,
 //                                         setEquivalenceConnectionId, setMath for ids inside MathML)
 //                 A                       assignAllIds()                     -> b0|b1 @ snapshot
@@ -24,7 +27,8 @@
 //                 P                       Printer::printModel(model, true): ids of all elements, purity of the model
 //   snapshot = the id read back through the public getter of every position of the slot table ("independent
 //   traversal": it is driven by the table the generator wrote, not by the library).
-// Items are printed as <kind>:<idslot>:<a>:<b> (a, b = id-slots of variable1/2 for connections and mappings).
+// Items are printed as <model>.<kind>:<idslot>:<a>:<b>: the model whose OBJECT was returned (pointer identity against the
+// objects of every model of the case), its position, and a, b = id-slots of variable1/2 for connections and mappings.
 #include <cstdio>
 #include <map>
 #include <sstream>
@@ -50,8 +54,11 @@ struct Desc
 struct Case
 {
     Interp in;
-    std::vector<Desc> table;
-    ModelPtr model;
+    std::vector<std::vector<Desc>> tables; // one per model
+    std::vector<ModelPtr> models;          // null once destroyed
+    std::vector<Desc> table;               // table of the model the annotator holds (tables[cur])
+    ModelPtr model;                        // models[cur]
+    size_t cur = 0;
     AnnotatorPtr annotator;
     std::map<size_t, std::vector<std::string>> mathIds; // component script slot -> ids on <math>, <apply>
 
@@ -92,11 +99,127 @@ struct Case
         comp(c)->setMath(m);
     }
 
+    void select(size_t k)
+    {
+        cur = k;
+        table = tables.at(k);
+        model = models.at(k);
+    }
+
+    // ---- clone support: the object of `clone` at the same position as `e` in `orig`
+    static std::vector<size_t> pathOf(const ComponentPtr &c)
+    {
+        std::vector<size_t> path;
+        ComponentPtr x = c;
+        while (x != nullptr) {
+            auto parent = std::dynamic_pointer_cast<ComponentEntity>(x->parent());
+            if (parent == nullptr) {
+                break;
+            }
+            size_t i = 0;
+            for (; i < parent->componentCount(); ++i) {
+                if (parent->component(i) == x) {
+                    break;
+                }
+            }
+            path.insert(path.begin(), i);
+            x = std::dynamic_pointer_cast<Component>(parent);
+        }
+        return path;
+    }
+    static ComponentPtr compAt(const ModelPtr &m, const std::vector<size_t> &path)
+    {
+        ComponentEntityPtr e = m;
+        ComponentPtr c;
+        for (size_t i : path) {
+            c = e->component(i);
+            e = c;
+        }
+        return c;
+    }
+    static ImportSourcePtr importOf(const ModelPtr &orig, const ModelPtr &clone, const ImportSourcePtr &is)
+    {
+        for (size_t i = 0; i < orig->unitsCount(); ++i) {
+            if (orig->units(i)->importSource() == is) {
+                return clone->units(i)->importSource();
+            }
+        }
+        std::vector<ComponentPtr> todo;
+        for (size_t i = 0; i < orig->componentCount(); ++i) {
+            todo.push_back(orig->component(i));
+        }
+        while (!todo.empty()) {
+            auto c = todo.back();
+            todo.pop_back();
+            if (c->importSource() == is) {
+                return compAt(clone, pathOf(c))->importSource();
+            }
+            for (size_t i = 0; i < c->componentCount(); ++i) {
+                todo.push_back(c->component(i));
+            }
+        }
+        return nullptr;
+    }
+    EntityPtr mapped(const ModelPtr &orig, const ModelPtr &clone, const EntityPtr &e)
+    {
+        if (auto m = std::dynamic_pointer_cast<Model>(e)) {
+            return clone;
+        }
+        if (auto u = std::dynamic_pointer_cast<Units>(e)) {
+            for (size_t i = 0; i < orig->unitsCount(); ++i) {
+                if (orig->units(i) == u) {
+                    return clone->units(i);
+                }
+            }
+        }
+        if (auto c = std::dynamic_pointer_cast<Component>(e)) {
+            return compAt(clone, pathOf(c));
+        }
+        if (auto v = std::dynamic_pointer_cast<Variable>(e)) {
+            auto c = std::dynamic_pointer_cast<Component>(v->parent());
+            for (size_t i = 0; i < c->variableCount(); ++i) {
+                if (c->variable(i) == v) {
+                    return compAt(clone, pathOf(c))->variable(i);
+                }
+            }
+        }
+        if (auto r = std::dynamic_pointer_cast<Reset>(e)) {
+            auto c = std::dynamic_pointer_cast<Component>(r->parent());
+            for (size_t i = 0; i < c->resetCount(); ++i) {
+                if (c->reset(i) == r) {
+                    return compAt(clone, pathOf(c))->reset(i);
+                }
+            }
+        }
+        if (auto is = std::dynamic_pointer_cast<ImportSource>(e)) {
+            return importOf(orig, clone, is);
+        }
+        return nullptr;
+    }
+    std::vector<Desc> cloneTable(size_t j, const ModelPtr &clone)
+    {
+        std::vector<Desc> out;
+        auto orig = models.at(j);
+        auto slotOfMapped = [&](size_t s) {
+            auto e = mapped(orig, clone, in.slots.at(s).p);
+            return size_t(in.adopt(e));
+        };
+        for (const auto &d : tables.at(j)) {
+            Desc n = d;
+            n.a = slotOfMapped(d.a);
+            if (d.k == "mp" || d.k == "cn") {
+                n.b = slotOfMapped(d.b);
+            }
+            out.push_back(n);
+        }
+        return out;
+    }
+
     std::string getId(const Desc &d)
     {
         const std::string &k = d.k;
-        if (k == "m") return model->id();
-        if (k == "e") return model->encapsulationId();
+        if (k == "m") return in.model(d.a)->id();
+        if (k == "e") return in.model(d.a)->encapsulationId();
         if (k == "u") return units(d.a)->id();
         if (k == "ui") return units(d.a)->unitId(d.b);
         if (k == "i") return import(d.a)->id();
@@ -115,8 +238,8 @@ struct Case
     void setId(const Desc &d, const std::string &id)
     {
         const std::string &k = d.k;
-        if (k == "m") model->setId(id);
-        else if (k == "e") model->setEncapsulationId(id);
+        if (k == "m") in.model(d.a)->setId(id);
+        else if (k == "e") in.model(d.a)->setEncapsulationId(id);
         else if (k == "u") units(d.a)->setId(id);
         else if (k == "ui") units(d.a)->setUnitId(d.b, id);
         else if (k == "i") import(d.a)->setId(id);
@@ -136,6 +259,9 @@ struct Case
 
     std::string snapshot()
     {
+        if (model == nullptr) {
+            return "-";
+        }
         std::string o;
         for (size_t i = 0; i < table.size(); ++i) {
             if (i > 0) {
@@ -156,7 +282,28 @@ struct Case
         return -1;
     }
 
+    // the item, named by the model whose object it is: every table is searched (pointer identity via script slots)
     std::string entryStr(const AnyCellmlElementPtr &it)
+    {
+        std::vector<Desc> saved = table;
+        std::string r = "?." + entryStrIn(it);
+        for (size_t k = 0; k < tables.size(); ++k) {
+            table = tables[k];
+            std::string e = entryStrIn(it);
+            if (e == "undef" || e == "nullitem") {
+                r = e;
+                break;
+            }
+            if (e.find(":-1:") == std::string::npos && e.find("null") == std::string::npos) {
+                r = std::to_string(k) + "." + e;
+                break;
+            }
+        }
+        table = saved;
+        return r;
+    }
+
+    std::string entryStrIn(const AnyCellmlElementPtr &it)
     {
         if (it == nullptr) {
             return "nullitem";
@@ -225,13 +372,29 @@ struct Case
         return o + "]";
     }
 
+    // the object, named by the model it belongs to and the position of its primary descriptor
+    std::string objKey(const std::string &k, long a, long b = -1)
+    {
+        if (a < 0) {
+            return "?.o:-1";
+        }
+        for (size_t m = 0; m < tables.size(); ++m) {
+            for (size_t i = 0; i < tables[m].size(); ++i) {
+                const Desc &d = tables[m][i];
+                if (d.k == k && long(d.a) == a && (b < 0 || long(d.b) == b)) {
+                    return std::to_string(m) + ".o:" + std::to_string(i);
+                }
+            }
+        }
+        return "?.o:-1";
+    }
     template<class T>
-    std::string objStr(const std::shared_ptr<T> &p)
+    std::string objStr(const std::string &k, const std::shared_ptr<T> &p)
     {
         if (p == nullptr) {
             return "null";
         }
-        return "o:" + std::to_string(in.find(p));
+        return objKey(k, in.find(p));
     }
 
     CellmlElementType typeOf(const std::string &k)
@@ -272,27 +435,29 @@ struct Case
 
     std::string typed(const std::string &cls, const std::string &id, int variant)
     {
-        if (cls == "comp") return objStr(variant == 0 ? annotator->component(id) : annotator->componentEncapsulation(id));
-        if (cls == "model") return objStr(variant == 0 ? annotator->model(id) : annotator->encapsulation(id));
-        if (cls == "import") return objStr(annotator->importSource(id));
+        if (cls == "comp") return objStr("c", variant == 0 ? annotator->component(id) : annotator->componentEncapsulation(id));
+        if (cls == "model") return objStr("m", variant == 0 ? annotator->model(id) : annotator->encapsulation(id));
+        if (cls == "import") return objStr("i", annotator->importSource(id));
         if (cls == "reset") {
-            return objStr(variant == 0 ? annotator->reset(id) : (variant == 1 ? annotator->testValue(id) : annotator->resetValue(id)));
+            return objStr("r", variant == 0 ? annotator->reset(id) : (variant == 1 ? annotator->testValue(id) : annotator->resetValue(id)));
         }
-        if (cls == "units") return objStr(annotator->units(id));
-        if (cls == "var") return objStr(annotator->variable(id));
+        if (cls == "units") return objStr("u", annotator->units(id));
+        if (cls == "var") return objStr("v", annotator->variable(id));
         if (cls == "unit") {
             auto ui = annotator->unitsItem(id);
             if (ui == nullptr) {
                 return "null";
             }
-            return "o:" + std::to_string(in.find(ui->units())) + "." + std::to_string(ui->index());
+            return objKey("ui", in.find(ui->units()), long(ui->index()));
         }
         if (cls == "pair") {
             auto p = variant == 0 ? annotator->connection(id) : annotator->mapVariables(id);
             if (p == nullptr) {
                 return "null";
             }
-            return "o:" + std::to_string(in.find(p->variable1())) + "-" + std::to_string(in.find(p->variable2()));
+            std::string k1 = objKey("v", in.find(p->variable1()));
+            std::string k2 = objKey("v", in.find(p->variable2()));
+            return k1 + "-" + k2.substr(k2.find(":") + 1);
         }
         return "?";
     }
@@ -377,36 +542,79 @@ static std::string runCase(const std::string &line)
             return "SCRIPT-" + r + " at " + cmd;
         }
     }
-    cs.model = cs.in.model(0);
-    if (cs.model == nullptr) {
-        return "SCRIPT-NO-MODEL";
-    }
-    for (const auto &t : splitws(secs[1], ',')) {
+    auto parseTable = [](const std::string &text) {
+        std::vector<Desc> table;
+        for (const auto &t : splitws(text, ',')) {
+            std::string tt;
+            for (char c : t) {
+                if (c != ' ') {
+                    tt.push_back(c);
+                }
+            }
+            if (tt.empty()) {
+                continue;
+            }
+            auto f = splitws(tt, ':');
+            Desc d;
+            d.k = f[0];
+            d.a = f.size() > 1 ? std::stoul(f[1]) : 0;
+            d.b = f.size() > 2 ? std::stoul(f[2]) : 0;
+            table.push_back(d);
+        }
+        return table;
+    };
+    auto tableTexts = splitws(secs[1], '/');
+    cs.tables.resize(tableTexts.size());
+    cs.models.resize(tableTexts.size());
+    std::vector<long> cloneOf(tableTexts.size(), -1);
+    for (size_t k = 0; k < tableTexts.size(); ++k) {
         std::string tt;
-        for (char c : t) {
+        for (char c : tableTexts[k]) {
             if (c != ' ') {
                 tt.push_back(c);
             }
         }
-        if (tt.empty()) {
+        if (tt.rfind("clone:", 0) == 0) {
+            cloneOf[k] = std::stol(tt.substr(6));
             continue;
         }
-        auto f = splitws(tt, ':');
-        Desc d;
-        d.k = f[0];
-        d.a = f.size() > 1 ? std::stoul(f[1]) : 0;
-        d.b = f.size() > 2 ? std::stoul(f[2]) : 0;
-        cs.table.push_back(d);
-        if (d.k == "ma") {
-            auto &v = cs.mathIds[d.a];
-            if (v.size() < d.b + 1) {
-                v.resize(d.b + 1);
+        cs.tables[k] = parseTable(tt);
+        if (cs.tables[k].empty() || cs.tables[k][0].k != "m") {
+            return "BAD-TABLE";
+        }
+        cs.models[k] = cs.in.model(cs.tables[k][0].a);
+        if (cs.models[k] == nullptr) {
+            return "SCRIPT-NO-MODEL";
+        }
+        for (const auto &d : cs.tables[k]) {
+            if (d.k == "ma") {
+                auto &v = cs.mathIds[d.a];
+                if (v.size() < d.b + 1) {
+                    v.resize(d.b + 1);
+                }
             }
         }
     }
     for (auto &kv : cs.mathIds) {
         cs.writeMath(kv.first);
     }
+    for (size_t k = 0; k < tableTexts.size(); ++k) {
+        if (cloneOf[k] >= 0) {
+            auto clone = cs.models.at(size_t(cloneOf[k]))->clone();
+            cs.in.adopt(clone);
+            cs.models[k] = clone;
+            cs.tables[k] = cs.cloneTable(size_t(cloneOf[k]), clone);
+            for (const auto &d : cs.tables[k]) {
+                if (d.k == "ma") {
+                    auto &v = cs.mathIds[d.a];
+                    if (v.size() < d.b + 1) {
+                        v.resize(d.b + 1);
+                    }
+                }
+            }
+        }
+    }
+    cs.select(0);
     cs.annotator = Annotator::create();
     std::string out;
     bool first = true;
@@ -432,10 +640,21 @@ static std::string runCase(const std::string &line)
             return v;
         };
         if (c == "S") {
+            cs.select(w.size() > 1 ? std::stoul(w[1]) : 0);
             cs.annotator->setModel(cs.model);
             r = "-";
+        } else if (c == "X") {
+            // drop every reference we hold to the model the annotator has: its weak pointer expires
+            long slot = cs.in.find(cs.model);
+            cs.model = nullptr;
+            cs.models.at(cs.cur) = nullptr;
+            if (slot >= 0) {
+                cs.in.exec("release " + std::to_string(slot));
+            }
+            r = cs.annotator->hasModel() ? "STILL-ALIVE" : "-";
         } else if (c == "E") {
-            cs.setId(cs.table.at(std::stoul(w.at(1))), strArg(2));
+            size_t k = w.size() > 3 ? std::stoul(w[3]) : 0;
+            cs.setId(cs.tables.at(k).at(std::stoul(w.at(1))), strArg(2));
             r = "-";
         } else if (c == "A") {
             bool ok = cs.annotator->assignAllIds();
@@ -478,7 +697,15 @@ static std::string runCase(const std::string &line)
         out += (first ? "" : ";") + r;
         first = false;
     }
-    out += " # final=" + cs.snapshot();
+    out += " # final=";
+    for (size_t k = 0; k < cs.models.size(); ++k) {
+        if (cs.models[k] != nullptr) {
+            cs.select(k);
+        } else {
+            cs.model = nullptr;
+        }
+        out += (k > 0 ? "/" : "") + cs.snapshot();
+    }
     return out;
 }
 
